@@ -16,7 +16,8 @@ Inductive vop :=
 | VSeek (ci : nat) (k : Z) (before : bool) | VFirst (ci : nat) | VLast (ci : nat)
 | VNext (ci : nat) | VPrev (ci : nat)
 | VDSet (ti : nat) (k v : Z) | VDGet (ti : nat) (k : Z) | VDDel (ti : nat) (k : Z)
-| VSAdd (ti : nat) (k : Z) | VSDisc (ti : nat) (k : Z) | VSIn (ti : nat) (k : Z).
+| VSAdd (ti : nat) (k : Z) | VSDisc (ti : nat) (k : Z) | VSIn (ti : nat) (k : Z)
+| VItOpen (ti : nat) (kind : Z) | VItNext (ci : nat) (mode : Z).
 
 Definition bz (b : bool) : obs := I (if b then 1 else 0).
 Definition nz (n : nat) : obs := I (Z.of_nat n).
@@ -48,6 +49,8 @@ Definition enc (x : vop) : obs :=
   | VSDisc ti k => L [I 24; nz ti; I k]
   | VSIn ti k => L [I 25; nz ti; I k]
   | VCopy ti => L [I 27; nz ti]
+  | VItOpen ti kind => L [I 18; nz ti; I kind]
+  | VItNext ci mode => L [I 19; nz ci; I mode]
   end.
 
 (* ---------------------------------------------------------------- the reference world *)
@@ -155,6 +158,14 @@ Definition rstep (rw : rworld) (x : vop) : rworld * obs :=
   | VSDisc ti k => r_with_tree rw ti (fun r => r_mutate rw ti r (del_sorted k (r_items r)) N)
   | VSIn ti k =>
       r_with_tree rw ti (fun r => (rw, match find_sorted k (r_items r) with Some _ => I 1 | None => I 0 end))
+  (* iterators: an anchor like any cursor; a step yields the first element behind it *)
+  | VItOpen ti kind => r_with_tree rw ti (fun r => (mkRW (rw_trees rw) (rw_cursors rw ++ [(ti, AL)]), N))
+  | VItNext ci mode =>
+      r_with_cursor rw ci (fun ti a l =>
+        match snd (split_anchor a l) with
+        | x :: _ => (mkRW (rw_trees rw) (set_nth ci (ti, AA (fst x)) (rw_cursors rw)), obs_of_iter mode (Some x))
+        | [] => (mkRW (rw_trees rw) (set_nth ci (ti, AR) (rw_cursors rw)), N)
+        end)
   end.
 
 Fixpoint rsteps (rw : rworld) (xs : list vop) : list obs :=
@@ -539,6 +550,25 @@ Proof.
     destruct (nth_error (w_trees w) ti) as [b|] eqn:Eb, (nth_error (rw_trees rw) ti) as [r|] eqn:Er; try contradiction; [|auto].
     destruct Ht as ((Hwf & Hsz) & He & _). unfold get_element. rewrite (lookup_spec_proof _ _ k Hwf), He.
     destruct (find_sorted k (r_items r)); auto.
+  - (* iterator open *) pose proof (R_tree w rw ti HR) as Ht.
+    destruct (nth_error (w_trees w) ti) as [b|] eqn:Eb, (nth_error (rw_trees rw) ti) as [r|] eqn:Er; try contradiction; [|auto].
+    split; [reflexivity|]. apply R_cursors; [assumption|]. apply Forall2_snoc; [apply HR|].
+    split; [reflexivity|]. split; [reflexivity|]. exists b. split; [assumption|].
+    apply (cursor_boundary_proof (b_t b) (b_root b) new_cursor).
+  - (* iterator step *) pose proof (R_cursor w rw ci HR) as Hc.
+    destruct (nth_error (w_cursors w) ci) as [(tj & c)|] eqn:Ec, (nth_error (rw_cursors rw) ci) as [(tj' & a)|] eqn:Ea; try contradiction; [|auto].
+    destruct Hc as (H1 & H2 & b & Hb & Hinv). cbn [fst snd] in *. subst tj' a. rewrite Hb.
+    pose proof (R_tree w rw tj HR) as Ht. rewrite Hb in Ht.
+    destruct (nth_error (rw_trees rw) tj) as [r|] eqn:Er; [|contradiction].
+    destruct Ht as ((Hwf & Hsz) & He & _). pose proof Hwf as (_ & _ & Hs).
+    destruct (cursor_next_proof (b_t b) (b_root b) c Hwf Hinv) as (bef & aft & c' & Hp & -> & Hinv' & _ & Han).
+    destruct (pos_ok_unique _ _ _ _ _ _ Hs Hp (split_anchor_ok (anchor_of c) _ Hs)) as (Hb1 & Ha1).
+    rewrite <- He, <- Ha1.
+    destruct aft as [|x aft']; cbn [hd_error obs_of_iter].
+    + split; [reflexivity|]. apply R_cursors; [assumption|]. apply Forall2_set_nth; [apply HR|].
+      split; [reflexivity|]. split; [exact Han|]. exists b. auto.
+    + split; [reflexivity|]. apply R_cursors; [assumption|]. apply Forall2_set_nth; [apply HR|].
+      split; [reflexivity|]. split; [exact Han|]. exists b. auto.
 Qed.
 
 (* ---------------------------------------------------------------- whole histories *)
